@@ -12,5 +12,5 @@ for p in $ids; do
   out=$(cd /verif && ./check $p quick 2>&1); rc=$?
   echo "== $p rc=$rc"; echo "$out" | grep -E 'VIOLATION|OK property|violation\[' | head -4 | cut -c1-400
 done
-git -C /repo checkout -- .
+git -C /repo checkout -- .; git -C /repo clean -fdq
 git -C /repo status --short
